@@ -235,7 +235,7 @@ func (x *executor) call(w http.ResponseWriter, r *http.Request, route types.Rout
 	for i := len(wraps) - 1; i >= 0; i-- {
 		if v, ok := x.pMws[wraps[i].mw]; ok {
 			o.raised = true
-			panic(panicVal{v})
+			panic(panicValue(v))
 		}
 	}
 	if h == nil {
@@ -246,14 +246,14 @@ func (x *executor) call(w http.ResponseWriter, r *http.Request, route types.Rout
 	if strings.HasPrefix(base, "user:") {
 		if v, ok := x.pHandlers[h.hid]; ok {
 			o.raised = true
-			panic(panicVal{v})
+			panic(panicValue(v))
 		}
 		runScript(w, x.scripts[h.hid])
 		return
 	}
 	if v, ok := x.pBases[baseCode[base]]; ok {
 		o.raised = true
-		panic(panicVal{v})
+		panic(panicValue(v))
 	}
 	switch base {
 	case "options":
@@ -295,7 +295,29 @@ func (x *executor) recoverFunc(w http.ResponseWriter, msg any) {
 	w.WriteHeader(500)
 }
 
+// panicValue: most ids are opaque values of the harness; a few stand for values with a meaning elsewhere in net/http.
+func panicValue(v int) any {
+	switch v {
+	case 99:
+		return http.ErrAbortHandler
+	case 98:
+		return fmt.Errorf("wrapped: %w", http.ErrAbortHandler)
+	case 97:
+		return "v97" // a plain string
+	}
+	return panicVal{v}
+}
+
 func fmtPanicVal(v any) string {
+	if v == http.ErrAbortHandler {
+		return "v99"
+	}
+	if e, ok := v.(error); ok && strings.HasPrefix(e.Error(), "wrapped: ") {
+		return "v98"
+	}
+	if s, ok := v.(string); ok && s == "v97" {
+		return "v97"
+	}
 	switch vv := v.(type) {
 	case panicVal:
 		return fmt.Sprintf("v%d", vv.id)
@@ -468,7 +490,7 @@ func (x *executor) serve(h http.Handler, req *http.Request) (out string) {
 	return prefix() + "normal " + fmtRec(r)
 }
 
-var loggedVal = regexp.MustCompile(`v[0-9]+|runtime error`)
+var loggedVal = regexp.MustCompile(`wrapped: net/http: abort Handler|net/http: abort Handler|v[0-9]+|runtime error`)
 
 // loggedPanic reads the sinks of the bundled recovery options: the value logged first and how many records there are.
 func (x *executor) loggedPanic() (val string, times int, ok bool) {
@@ -488,8 +510,13 @@ func (x *executor) loggedPanic() (val string, times int, ok bool) {
 		return "", 0, false
 	}
 	val = loggedVal.FindString(text)
-	if val == "runtime error" {
+	switch val {
+	case "runtime error":
 		val = "fault"
+	case "net/http: abort Handler":
+		val = "v99"
+	case "wrapped: net/http: abort Handler":
+		val = "v98"
 	}
 	if val == "" {
 		val = "unknown"
